@@ -213,5 +213,21 @@ func famOpts(fam string, d, p int) ([]rs.Option, error) {
 		}
 		return []rs.Option{rs.WithCustomMatrix(m)}, nil
 	}
+	if strings.HasPrefix(fam, "blocks:") { // blocks:<seed> — a custom matrix whose aligned 10x10 tiles are all-zero or all-non-zero (local parities)
+		seed := atou(fam[7:])
+		tiles := fill(seed, 999, 64)
+		m := make([][]byte, p)
+		for i := range m {
+			m[i] = fill(seed, 1000+i, d)
+			for j := range m[i] {
+				if tiles[((i/10)*8+j/10)%64] < 128 {
+					m[i][j] = 0
+				} else {
+					m[i][j] |= 1
+				}
+			}
+		}
+		return []rs.Option{rs.WithCustomMatrix(m)}, nil
+	}
 	return nil, errors.New("badfam")
 }
